@@ -30,7 +30,18 @@ func init() {
 	zzResetHook = zzEnvReset
 }
 
+var zzTracked []*PfcpServer
+
+func zzTrack(s *PfcpServer) { zzTracked = append(zzTracked, s) }
+
 func zzEnvReset() {
+	for _, s := range zzTracked {
+		s.Stop()
+	}
+	if len(zzTracked) > 0 {
+		time.Sleep(20 * time.Millisecond)
+	}
+	zzTracked = nil
 	if zzSinks == nil {
 		for _, a := range []string{"127.0.0.1:8805", "127.0.0.2:8805"} {
 			ua, _ := net.ResolveUDPAddr("udp4", a)
@@ -72,7 +83,23 @@ func zzConn() *net.UDPConn { return zzUPF }
 func zzSentCount() int          { zzDrain(); return len(zzLog) }
 func zzSentBytes(i int) []byte  { zzDrain(); return zzLog[i].b }
 func zzSentAddr(i int) net.Addr { zzDrain(); return zzLog[i].to }
-func zzYield()                  { runtime.Gosched(); time.Sleep(5 * time.Millisecond) }
+func zzYield() {
+	// let the event loop(s) run until their queues are drained, then a little longer
+	runtime.Gosched()
+	for i := 0; i < 400; i++ {
+		time.Sleep(time.Millisecond)
+		idle := true
+		for _, s := range zzTracked {
+			if len(s.rcvCh) != 0 || len(s.srCh) != 0 || len(s.trToCh) != 0 {
+				idle = false
+			}
+		}
+		if idle && i >= 2 {
+			break
+		}
+	}
+	time.Sleep(3 * time.Millisecond)
+}
 func zzExpectExit()             {}
 func zzTimersActive() int       { return -1 }
 func zzTimersCreated() int      { return -1 }
